@@ -16,16 +16,42 @@ from harness.adapter import _bdd
 class Trace:
     """One recorded trace (a forest: each event names its pre-state)."""
 
-    def __init__(self, tid, names, bdd=None, seed=0, meta=None):
+    def __init__(self, tid, names, bdd=None, seed=0, meta=None, ext=None,
+                 views=False):
         self.tid = tid
         self.names = list(names)
         self.bdd = bdd if bdd is not None else _bdd.BDD()
-        self.ext = dict()      # ledger: node -> external refs we hold
+        self.ext = dict(ext or {})   # ledger: node -> external refs we hold
+        self.views = views
         self.events = list()
         self.rng = random.Random(seed)
         self.meta = meta or dict()
         self.cur = 0           # index (1-based) of the event whose post is current
         self._emit('init', dict(), 0, '', pre=1)
+
+    def read_views(self):
+        """The four public views of the variable order (C14)."""
+        b = self.bdd
+        names = sorted(b.vars)
+        n = len(names)
+        at = []
+        for i in range(n):
+            try:
+                at.append(b.var_at_level(i))
+            except Exception:
+                at.append('?')
+        lof = []
+        for nm in names:
+            try:
+                lof.append(int(b.level_of_var(nm)))
+            except Exception:
+                lof.append(-1)
+        vl = b.var_levels
+        return dict(names=names,
+                    vars=[int(b.vars[x]) for x in names],
+                    var_levels=[int(vl.get(x, -1)) for x in names],
+                    var_levels_n=len(vl),
+                    at_level=at, level_of=lof)
 
     # ---- ledger ----
     def hold(self, u):
@@ -51,6 +77,8 @@ class Trace:
             post=adapter.snap(self.bdd, self.ext, self.names, self.rng))
         if extra:
             ev.update(extra)
+        if self.views:
+            ev['views'] = self.read_views()
         self.events.append(ev)
         self.cur = len(self.events)
         return ev
@@ -172,6 +200,12 @@ class Trace:
             'find_or_add', dict(level=level, low=low, high=high),
             lambda: self.bdd.find_or_add(level, low, high), hold=hold,
             expect_ok=expect_ok)
+
+    def build(self, tt, fn, nvars):
+        """A composite construction (several public calls) of the function
+        whose models are the set bits of `tt`; recorded as one event."""
+        models = [a for a in range(1 << nvars) if (tt >> a) & 1]
+        return self.call('build', dict(models=models), fn, hold=True)
 
     def incref(self, u):
         def fn():
